@@ -1,17 +1,17 @@
 #!/bin/bash
-# tools/regress_mutants.sh [-j K] [-t tier] [ids or property prefixes...]
+# tools/regress_mutants.sh [-j K] [-t tier] [-d seeded|reverted_fixes] [ids or id prefixes...]
 # Re-runs seeded changes against the current harness in scratch copies (/tmp/mutrun<k>: a git
 # worktree of /repo + a copy of the harness + its own target directory), so that /repo and
 # /verif/target stay untouched. Appends the observed result to /verif/seeded/<id>/meta.json ("ran").
 # The scratch copies are removed at the end (-k keeps them).
 set -u
 HERE=/verif
-J=4; TIER=quick; KEEP=0
-while getopts "j:t:k" o; do case $o in j) J=$OPTARG;; t) TIER=$OPTARG;; k) KEEP=1;; esac; done
+J=4; TIER=quick; KEEP=0; BASE=seeded
+while getopts "j:t:kd:" o; do case $o in j) J=$OPTARG;; t) TIER=$OPTARG;; k) KEEP=1;; d) BASE=$OPTARG;; esac; done
 shift $((OPTIND-1))
 SEL="${@:-C}"
 IDS=""
-for s in $SEL; do for d in $HERE/seeded/$s*/; do [ -f "$d/patch.diff" ] && IDS="$IDS $(basename $d)"; done; done
+for s in $SEL; do for d in $HERE/$BASE/$s*/; do [ -f "$d/patch.diff" ] && IDS="$IDS $(basename $d)"; done; done
 IDS=$(echo $IDS | tr ' ' '\n' | sort -u)
 echo "regressing: $(echo $IDS | wc -w) changes, $J workers, tier $TIER"
 for k in $(seq 1 $J); do
@@ -23,22 +23,22 @@ for k in $(seq 1 $J); do
   sed -i "s#/verif/target#$W/target#" $W/harness/.cargo/config.toml
   if [ ! -d $W/target ] && [ -d $HERE/target ]; then cp -a $HERE/target $W/target; fi
 done
-export HERE TIER
+export HERE TIER BASE
 worker() {
   k=$1; shift
   W=/tmp/mutrun$k
   for ID in "$@"; do
-    P=$HERE/seeded/$ID/patch.diff
-    PROP=$(python3 -c "import json;print(json.load(open('$HERE/seeded/$ID/meta.json'))['breaks_property'])")
+    P=$HERE/$BASE/$ID/patch.diff
+    PROP=$(python3 -c "import json;print(json.load(open('$HERE/$BASE/$ID/meta.json'))['breaks_property'])")
     git -C $W/repo checkout -q -- . ; git -C $W/repo clean -fdq
-    if ! git -C $W/repo apply "$P" 2>/dev/null; then echo "REGRESS $ID patch-does-not-apply"; python3 $HERE/tools/record_ran.py $ID "$PROP" $TIER ${VERIF_SEED:-1} 3 /dev/null; continue; fi
+    if ! git -C $W/repo apply "$P" 2>/dev/null; then echo "REGRESS $ID patch-does-not-apply"; python3 $HERE/tools/record_ran.py $BASE/$ID "$PROP" $TIER ${VERIF_SEED:-1} 3 /dev/null; continue; fi
     OUT=$W/out/$ID; rm -rf $OUT; mkdir -p $OUT/evidence $OUT/replays $OUT/scratch; cp $HERE/known_findings.json $OUT/
     if ! ( cd $W/harness && CARGO_NET_OFFLINE=true cargo build --offline -q 2>$OUT/build.log ); then
       rc=4
     else
       VERIF_DIR=$OUT RUST_BACKTRACE=0 timeout -k 20 3000 $W/target/debug/umv $PROP --tier $TIER --seed ${VERIF_SEED:-1} > $OUT/out.log 2>&1; rc=$?
     fi
-    python3 $HERE/tools/record_ran.py $ID "$PROP" $TIER ${VERIF_SEED:-1} $rc $OUT/out.log
+    python3 $HERE/tools/record_ran.py $BASE/$ID "$PROP" $TIER ${VERIF_SEED:-1} $rc $OUT/out.log
   done
   git -C $W/repo checkout -q -- . ; git -C $W/repo clean -fdq
 }
